@@ -1,6 +1,6 @@
 """C18 Word matching is a longest common subsequence; edited words are its complement."""
 import re
-from analysis.engine import rule, AnchorMissing
+from analysis.engine import rule, AnchorMissing, Definite
 from analysis import cfg, poly
 from analysis.sym import sym, show_in, nosite, peel, core, walk, ret_values, args_of, guards_at, atoms_at, \
     variant_facts_at, cmp_facts_at, init_value, edge_guards, symbolizer, simplify, loop_source, defs_of, var_defs
@@ -52,6 +52,37 @@ def _stores(b, blocks=None):
             yield s, (sym(b, s.lhs) if s.lhs.proj else ('var', b.var_name(s.lhs.local), s.lhs.local)), simplify(z.rvalue(s.rv, 0, ()))
 
 
+def _explicit_cell(ctx, b):
+    """the cell written out as branches instead of a maximum over a candidate array: the one thing decided here is that no branch
+    stores the bare diagonal value d[i-1][j-1] -- the diagonal is only ever a candidate as d[i-1][j-1] + 1 under a word match, or
+    through the neighbours (d[i-1][j-1] <= d[i-1][j], d[i][j-1]), so a branch that takes it drops a match the neighbours already hold"""
+    from analysis.alts import value_alts
+    found = 0
+    for s_, t_, v_ in _stores(b):
+        ct = core(t_)
+        if not (ct[0] == 'index' and ct[1][0] == 'index' and ct[1][1][0] == 'var' and _role(ct[1][1][2]) == 'd'):
+            continue
+        if cfg.innermost_loop(b, s_.bb) is None:
+            continue
+        found += 1
+        pi_, pj_ = poly.poly(ct[1][2]), poly.poly(ct[2])
+        from analysis.alts import flatten, expand
+        for a_ in flatten(expand(ctx.facts, b, nosite(v_))):
+            cv = core(a_.value)
+            if cv[0] == 'field' and isinstance(cv[2], int) and core(cv[1])[0] == 'agg' and core(cv[1])[1] == 'tuple' and cv[2] < len(core(cv[1])[3]):
+                cv = core(core(cv[1])[3][cv[2]])
+            tgt = cv
+            if tgt[0] == 'agg' and tgt[1] == 'tuple' and tgt[3]:
+                tgt = core(tgt[3][0])
+            if tgt[0] == 'index' and tgt[1][0] == 'index' and tgt[1][1][0] == 'var' and _role(tgt[1][1][2]) == 'd':
+                di = poly._add(pi_, poly.poly(tgt[1][2]), -1)
+                dj = poly._add(pj_, poly.poly(tgt[2]), -1)
+                if di == poly.const(1) and dj == poly.const(1):
+                    raise Definite('cell-takes-diagonal', 'a branch of the LCS cell stores the bare diagonal value `%s` (line %d): the diagonal only counts as d[i-1][j-1] + 1 under a '
+                                   'word match; when the upper and the left neighbour are equal and larger than the diagonal the cell loses a match (the matching is '
+                                   'no longer a longest common subsequence, e.g. "x y" vs "y x")' % (show_in(b, a_.value)[:60], s_.span['line']), b, s_.span)
+
+
 @rule('C18', 'R-C18-1', 'T14 RECURRENCE (LCS)',
       'cell d[i][j] = max (last maximum, compared on the value) of d[i-1][j] Delete, d[i][j-1] Insert, d[i-1][j-1] + [words '
       'match] with Match only when the words match, NoMatch otherwise; the words compared are a_words[i-1], b_words[j-1]')
@@ -60,6 +91,7 @@ def r1(ctx):
     _roles(b)
     mx = [t for t in b.calls(r'Iterator::max_by$|Iterator::max_by_key$|Iterator::max$')]
     if len(mx) != 1:
+        _explicit_cell(ctx, b)
         raise AnchorMissing('candidate selection (max_by) of match_words_with')
     inner = cfg.innermost_loop(b, mx[0].bb)
     outer = None
